@@ -88,9 +88,23 @@ type world struct {
 
 	baseGoroutines int
 
-	// a real PIT-CS table created at start-up, as each forwarding thread has one: the Content Store that cs/config must govern
-	cs       *table.PitCsTree
+}
+
+// A real PIT-CS table created once at start-up, as each forwarding thread has one: the Content Store that cs/config must govern.
+// (One per process: NewPitCS arms a timer whose goroutine waits for a forwarding thread to read it; it is drained once here.)
+var (
+	theCS    *table.PitCsTree
 	csStored int // distinct Data inserted so far
+)
+
+func contentStore() *table.PitCsTree {
+	if theCS == nil {
+		theCS = table.NewPitCS(func(table.PitEntry) {})
+		done := make(chan struct{})
+		go func() { <-theCS.UpdateTimer(); close(done) }()
+		<-done
+	}
+	return theCS
 }
 
 var configured bool
@@ -135,8 +149,8 @@ func newWorld(allowLocalhop bool, fibAlgo string, faces []faceSpec) (*world, err
 	table.CreateFIBTable(fibAlgo)
 	face.VerifMgmtResetFaceTable()
 
+	contentStore()
 	w := &world{fw: &fakeFw{datas: make(chan captured, 256)}, exited: make(chan any, 1), baseGoroutines: runtime.NumGoroutine()}
-	w.cs = table.NewPitCS(func(table.PitEntry) {})
 	dispatch.InitializeFWThreads([]dispatch.FWThread{w.fw})
 	w.thread = fwmgmt.MakeMgmtThread()
 	go w.thread.VerifRun(func(p any) { w.exited <- p })
@@ -287,22 +301,25 @@ func (w *world) dataPacket(name enc.Name, inFace uint64) ([]captured, string) {
 	return mine, st
 }
 
-// csProbe inserts n fresh Data packets into the real Content Store and returns its size, the number of distinct packets stored so
-// far, and the capacity management reports. A store that obeys the configured capacity holds min(stored, capacity) entries.
-func (w *world) csProbe(n int) (size, stored, capacity int) {
+// csProbe inserts n fresh Data packets into the real Content Store and returns its size before and after and the capacity management
+// reports. A store that obeys the configured capacity then holds min(before + n, capacity) entries (every insertion evicts down
+// to the capacity).
+func (w *world) csProbe(n int) (before, size, capacity int) {
+	cs := contentStore()
+	before = cs.CsSize()
 	for i := 0; i < n; i++ {
-		name, _ := enc.NameFromStr(fmt.Sprintf("/verif/cs/%d", w.csStored))
+		name, _ := enc.NameFromStr(fmt.Sprintf("/verif/cs/%d", csStored))
 		d, err := spec.Spec{}.MakeData(name, &ndn.DataConfig{}, enc.Wire{[]byte("x")}, sec.NewSha256Signer())
 		if err != nil {
 			continue
 		}
 		wire := d.Wire.Join()
 		if pkt, _, err := spec.ReadPacket(enc.NewBufferReader(wire)); err == nil && pkt.Data != nil {
-			w.cs.InsertData(pkt.Data, wire)
-			w.csStored++
+			cs.InsertData(pkt.Data, wire)
+			csStored++
 		}
 	}
-	return w.cs.CsSize(), w.csStored, table.CsCapacity()
+	return before, cs.CsSize(), table.CsCapacity()
 }
 
 // close stops the management loop (closing the internal face ends Run) and waits for it.
